@@ -68,6 +68,12 @@ def read_curve(connection, which):
             'FROM recession_interval_zeta').fetchall()
     per_level = {}
     for start, k, crossing in rows:
+        if start not in intervals:
+            raise Violation(
+                '{}-crossing-row-without-interval'.format(which),
+                'crossing rows are stored for {} which has no row in the '
+                'interval table (foreign keys are off on CLI '
+                'connections)'.format(start))
         per_level.setdefault(k, {})[start] = intervals[start] + crossing
     return intervals, per_level
 
